@@ -21,7 +21,7 @@
 From Coq Require Import ZArith QArith List String Bool Arith Lia ZifyBool ZifyNat.
 From PV Require Import MiniPy.Syntax MiniPy.Interp MiniPy.Lemmas MiniTorch.Ops MiniTorch.Lemmas MiniTorch.OpsC07 MiniTorch.LemmasC07
   MiniTorch.OpsC01 MiniTorch.LemmasC01.
-From PV Require Import Gen.C01Src C01.SrcRun C01.TieLib C01.TieMath C01.TieLoop C01.TieBlocks C01.TieWhole C01.TieLens C01.TiePre.
+From PV Require Import Gen.C01Src C01.SrcRun C01.TieLib C01.TieMath C01.TieLoop C01.TieBlocks C01.TieWhole C01.TieLens C01.TiePre C01.TieBody.
 From PV Require C01.Obs C01.Spec C01.Model C01.LevFacts C01.Proofs.
 Import ListNotations.
 Local Open Scope string_scope.
@@ -116,15 +116,26 @@ Lemma wf_src_model : forall bf N T m, wf_src bf N T m -> C01.Proofs.wf_tensor bf
 Proof. intros bf N T m H. unfold wf_src, C01.Proofs.wf_tensor in *. destruct bf; [|exact I]. destruct H as [HL HW]. split; [exact HL|now exists T]. Qed.
 
 (* ---- (2)-(4) the whole call --------------------------------------------------------------------------------- *)
-Theorem edit_distance_is_model :
+Definition run_prog (prog : stmt) (s : positive) (c : C01.Model.cfg) (N : nat) (ref hyp : list (list Z)) (w : bool) (pad : Z)
+  : outcome val :=
+  Interp.run ext01 prog
+    (sm_vars (mat_tensor (C01.Model.c_bf c) N ref) (mat_tensor (C01.Model.c_bf c) N hyp)
+       (C01.Model.c_eos c) (C01.Model.c_incl c) (C01.Model.c_bf c)
+       (qz s (C01.Model.c_ins c)) (qz s (C01.Model.c_del c)) (qz s (C01.Model.c_sub c)) w (C01.Model.c_norm c) pad).
+
+(* any program that runs like sm_pre; sm_row0; flag block; <a loop with the property of sm_loop>; exits; gather; sm_fin *)
+Lemma prog_is_model :
+  forall (prog lp : stmt), loop_ok lp ->
+  (forall st, exec ext01 prog st
+              = exec ext01 (SSeq sm_pre (SSeq sm_row0 (SSeq (SSeq main_flags (SSeq lp main_rest)) sm_fin))) st) ->
   forall (s : positive) (c : C01.Model.cfg) (N R H : nat) (ref hyp : list (list Z)) (w : bool) (pad : Z),
   (0 < N)%nat -> wf_src (C01.Model.c_bf c) N R ref -> wf_src (C01.Model.c_bf c) N H hyp ->
   (C01.Model.c_eos c <> None -> R <> 0%nat /\ H <> 0%nat) ->
-  exists st', run_edit_distance s c N ref hyp w pad
+  exists st', run_prog prog s c N ref hyp w pad
               = Ok (enc_x (mkTn [N] (map (val_fx s) (C01.Model.edit_distance c N ref hyp)))) st'.
 Proof.
-  intros s c N R H ref hyp w pad HN Hr Hh Hnz.
-  unfold run_edit_distance, Interp.run, sm_blocks.
+  intros prog lp Hlp Hprog s c N R H ref hyp w pad HN Hr Hh Hnz.
+  unfold run_prog, Interp.run. rewrite Hprog.
   rewrite (mat_tensor_in _ N R ref HN Hr), (mat_tensor_in _ N H hyp HN Hh).
   set (rf := at_src (C01.Model.c_bf c) ref). set (hf := at_src (C01.Model.c_bf c) hyp).
   match goal with |- context [exec ext01 _ ?st0] => set (st0' := st0) end.
@@ -132,9 +143,9 @@ Proof.
   { unfold st0', params, sm_vars, globals01, torch_module. cbn [known app]. repeat split; reflexivity. }
   assert (Hret : returns (enc_x (mkTn [N] (map (fin_value (eff_scale s c) (eff_ci c) (eff_cd c) (eff_cs c) (eff_mult s c)
                                                    R H rf hf (ref_len c R rf) (hyp_len c H hf) (C01.Model.c_norm c)) (seq 0 N))))
-                         (exec ext01 (SSeq sm_pre (SSeq sm_row0 (SSeq sm_main sm_fin))) st0')).
+                         (exec ext01 (SSeq sm_pre (SSeq sm_row0 (SSeq (SSeq main_flags (SSeq lp main_rest)) sm_fin))) st0')).
   { eapply returns_seq; [apply pre_run; [exact Hnz|exact K]|]. intros st1 K1.
-    eapply tail_run; [|exact K1].
+    eapply tail_run_gen; [exact Hlp| |exact K1].
     intros n Hn. unfold ref_len. rewrite <- (colf_length R rf n) at 2. apply C01.Proofs.eff_len_le. }
   destruct Hret as [st' He]. rewrite He. exists st'. do 4 f_equal.
   apply (nth_ext _ _ FNaN FNaN).
@@ -146,6 +157,34 @@ Proof.
     rewrite <- (colf_seq_of _ N R ref n Hn Hr), <- (colf_seq_of _ N H hyp n Hn Hh). fold rf. fold hf.
     unfold fin_value, final_col, iter_col, ref_len, hyp_len.
     apply (pair_value s c R H (colf R rf n) (colf H hf n) (colf_length R rf n) (colf_length H hf n)).
+Qed.
+
+(* the blocks in sequence *)
+Theorem edit_distance_is_model :
+  forall (s : positive) (c : C01.Model.cfg) (N R H : nat) (ref hyp : list (list Z)) (w : bool) (pad : Z),
+  (0 < N)%nat -> wf_src (C01.Model.c_bf c) N R ref -> wf_src (C01.Model.c_bf c) N H hyp ->
+  (C01.Model.c_eos c <> None -> R <> 0%nat /\ H <> 0%nat) ->
+  exists st', run_edit_distance s c N ref hyp w pad
+              = Ok (enc_x (mkTn [N] (map (val_fx s) (C01.Model.edit_distance c N ref hyp)))) st'.
+Proof.
+  intros. apply (prog_is_model sm_blocks sm_loop sm_loop_ok) with (R := R) (H := H); try assumption.
+  intros st. unfold sm_blocks. rewrite !exec_flatten. f_equal.
+Qed.
+
+(* the whole body of the function, as one term *)
+Definition run_string_matching (s : positive) (c : C01.Model.cfg) (N : nat) (ref hyp : list (list Z)) (w : bool) (pad : Z)
+  : outcome val := run_prog sm_body s c N ref hyp w pad.
+
+Theorem string_matching_is_model :
+  forall (s : positive) (c : C01.Model.cfg) (N R H : nat) (ref hyp : list (list Z)) (w : bool) (pad : Z),
+  (0 < N)%nat -> wf_src (C01.Model.c_bf c) N R ref -> wf_src (C01.Model.c_bf c) N H hyp ->
+  (C01.Model.c_eos c <> None -> R <> 0%nat /\ H <> 0%nat) ->
+  exists st', run_string_matching s c N ref hyp w pad
+              = Ok (enc_x (mkTn [N] (map (val_fx s) (C01.Model.edit_distance c N ref hyp)))) st'.
+Proof.
+  intros. apply (prog_is_model sm_body loop3) with (R := R) (H := H); try assumption.
+  - unfold loop_ok. intros. now apply loop_tie3.
+  - exact sm_body_split.
 Qed.
 
 (* the executable of the harness is this run: [src_ed] on the blocks computes the model's values *)
@@ -184,4 +223,40 @@ Proof.
     destruct (C01.Proofs.edit_distance_correct c N ref hyp n Hn (wf_src_model _ _ _ _ Hr) (wf_src_model _ _ _ _ Hh) Hnorm)
       as [v [Hv [Hlev _]]].
     rewrite Hv. cbn [val_fx]. now rewrite Hlev.
+Qed.
+
+Theorem string_matching_is_lev :
+  forall (s : positive) (c : C01.Model.cfg) (N R H : nat) (ref hyp : list (list Z)) (w : bool) (pad : Z),
+  (0 < N)%nat -> wf_src (C01.Model.c_bf c) N R ref -> wf_src (C01.Model.c_bf c) N H hyp ->
+  (C01.Model.c_eos c <> None -> R <> 0%nat /\ H <> 0%nat) -> C01.Model.c_norm c = false ->
+  exists out st', run_string_matching s c N ref hyp w pad = Ok (enc_x (mkTn [N] out)) st' /\
+    List.length out = N /\
+    forall n, (n < N)%nat ->
+      nth n out FNaN =
+      zf s (C01.Spec.lev (C01.Model.c_ins c) (C01.Model.c_del c) (C01.Model.c_sub c)
+              (C01.Spec.denote (C01.Model.c_eos c) (C01.Model.c_incl c) (C01.Proofs.seq_of (C01.Model.c_bf c) n ref))
+              (C01.Spec.denote (C01.Model.c_eos c) (C01.Model.c_incl c) (C01.Proofs.seq_of (C01.Model.c_bf c) n hyp))).
+Proof.
+  intros s c N R H ref hyp w pad HN Hr Hh Hnz Hnorm.
+  destruct (string_matching_is_model s c N R H ref hyp w pad HN Hr Hh Hnz) as [st' He].
+  eexists. exists st'. split; [exact He|]. split.
+  - now rewrite map_length, C01.Proofs.edit_distance_length.
+  - intros n Hn.
+    rewrite (C01.Proofs.nth_map_lt (val_fx s) _ n (C01.Obs.Lit 0)) by (now rewrite C01.Proofs.edit_distance_length).
+    destruct (C01.Proofs.edit_distance_correct c N ref hyp n Hn (wf_src_model _ _ _ _ Hr) (wf_src_model _ _ _ _ Hh) Hnorm)
+      as [v [Hv [Hlev _]]].
+    rewrite Hv. cbn [val_fx]. now rewrite Hlev.
+Qed.
+
+Corollary src_ed_body_is_model :
+  forall (c : C01.Model.cfg) (scale : Z) (N R H : nat) (ref hyp : list (list Z)),
+  (0 < N)%nat -> wf_src (C01.Model.c_bf c) N R ref -> wf_src (C01.Model.c_bf c) N H hyp ->
+  (C01.Model.c_eos c <> None -> R <> 0%nat /\ H <> 0%nat) ->
+  src_ed sm_body c scale N ref hyp
+  = Some (Some (map (val_fx (Z.to_pos scale)) (C01.Model.edit_distance c N ref hyp))).
+Proof.
+  intros c scale N R H ref hyp HN Hr Hh Hnz.
+  destruct (string_matching_is_model (Z.to_pos scale) c N R H ref hyp false (C01.Model.c_pad c) HN Hr Hh Hnz) as [st' He].
+  unfold src_ed, cfg_vars, cost_q. unfold run_string_matching, run_prog, qz in He. rewrite He.
+  rewrite dec01_enc_x. cbn [shp dat]. rewrite nats_eqb_refl. reflexivity.
 Qed.
